@@ -91,6 +91,9 @@ func newWorld(nctl int) (*world, error) {
 		w.ctls = append(w.ctls, &ctl{id: c, subs: map[*chr]bool{}})
 	}
 	w.tb = fixture.NewTestBed("C10 Bridge", 2) // two identical switches: same iids on different accessories
+	// the bulb's main service links to the service that holds bulb.text, as a television links to its input
+	// sources: a linked service is also an ordinary member of the accessory, its characteristics are observed once
+	w.tb.Bulb.Lightbulb.Service.AddLinkedService(w.tb.Extra)
 	acc, err := w.tb.Start(w.dir, "03145154", false)
 	if err != nil {
 		return nil, fmt.Errorf("INFRA: %v", err)
